@@ -112,6 +112,13 @@ func c24One(id int, cfg c24Cfg, seed int64) (*c24Run, error) {
 	record := func(ev c24Ev) {
 		for pid := 1; pid <= cfg.threads; pid++ {
 			for _, f := range run.Files {
+				// a timer callback runs in real time, outside the scheduler: while it emits, a scheduled
+				// goroutine may be in the middle of a critical section of ANOTHER file (descriptor already
+				// closed by Close(), its own event not emitted yet), so only the timer's own file is
+				// observed at a TimerFire event (its fields are read under that file's mutex)
+				if ev.T == "timer" && f != ev.F {
+					continue
+				}
 				for _, fd := range held[pid][f] {
 					ev.Held = append(ev.Held, c24Held{F: f, SfClosed: sfClosed[f], FdClosed: fd.closed.Load()})
 				}
